@@ -538,6 +538,9 @@ class Models(object):
             if ok and isinstance(c, (int, float, str, bytes, tuple)):
                 return [(path, VStr(str(c)))]
             return [(path, VStr(ex.fresh_str(path, 'str_obj')))]
+        if isinstance(v, (VDictLit, VMap, VSeq, VSet)):
+            # repr-like text of a container: some string (only ever logged)
+            return [(path, VStr(ex.fresh_str(path, 'str_obj')))]
         raise Unsupported('str() of %r' % (v,))
 
     def _hexlify(self, ex, path, v):
